@@ -160,6 +160,31 @@ func RunCheck(verifDir, repoDir, prop, tier string, seed int, overlay map[string
 			}
 		}
 	}
+	// obligations on package-level tables (data), evaluated on the literal
+	for _, dc := range eng.Specs.Data {
+		rel := false
+		for _, p := range dc.Props {
+			if p == prop {
+				rel = true
+			}
+		}
+		if !rel || eng.homeOf(dc.Where) == nil {
+			continue
+		}
+		name, ok, witness, err := eng.RunDataCheck(dc)
+		if err != nil {
+			anchorFail["anchor:table."+dc.Var] = err.Error()
+			continue
+		}
+		o := &Obligation{Name: name, Func: "table " + dc.Var, Kind: "data", Label: dc.Kind, Guard: "true", Goal: "true", Props: dc.Props, Pos: dc.Where, Src: "table " + dc.Var + " " + dc.Kind}
+		st := "unsat"
+		if !ok {
+			st = "sat"
+		}
+		cr.Results = append(cr.Results, &Result{Obl: o, Status: st, Solver: "literal-evaluation", Output: witness, Model: witness, Tried: []string{"literal-evaluation:" + st}})
+		generated[BaseName(name)] = true
+		funcsUnder = append(funcsUnder, "table "+dc.Var)
+	}
 	// lemmas attributed to this property
 	for _, l := range eng.Specs.Lemmas {
 		rel := false
